@@ -15,6 +15,10 @@ import (
 	"encoding/hex"
 	"encoding/json"
 	"fmt"
+	"go/ast"
+	"go/parser"
+	"go/printer"
+	token2 "go/token"
 	"math/rand"
 	"os"
 	"path/filepath"
@@ -59,6 +63,8 @@ func main() {
 		quoteLines()
 	case "format":
 		formatLines()
+	case "api":
+		apiLines()
 	case "fuzz":
 		fuzz(os.Args[2], os.Args[3], os.Args[4])
 	default:
@@ -655,7 +661,7 @@ func fuzz(tmpbase, secs, seed string) {
 		}
 	}
 	dict := []string{"~", "[]", "{}", "[[]]", "{a: {b: {c: [1, {d: 2}]}}}", "!!binary aGVsbG8=", "&anc", "*anc", "<<: *anc", "!!str 5", "!!int \"x\"",
-		"2001-12-14t21:59:43.10-05:00", ".inf", "-.inf", ".nan", "0x7fffffffffffffff", "18446744073709551616", "1e400", "%", "%%", "%a%", "%f(%",
+		"2001-12-14t21:59:43.10-05:00", "%" + strings.Repeat("ą", 20) + "%", strings.Repeat("ż", 40), "%env(\"" + strings.Repeat("ŻÓŁĆ", 9) + "\")%", ".inf", "-.inf", ".nan", "0x7fffffffffffffff", "18446744073709551616", "1e400", "%", "%%", "%a%", "%f(%",
 		"@", "@@", "!value", "!value &", "!tagged ", "$gontainer", "\"", "'", ": ", "- ", "? ", "|", ">", "#", "\t", "\x00", "\xff\xfe", "\u2028",
 		strings.Repeat("a", 5000), strings.Repeat("[", 300), strings.Repeat("{a: ", 200), strings.Repeat("- ", 300), strings.Repeat("%x%", 400),
 		"services", "parameters", "meta", "decorators", "version", "arguments", "calls", "fields", "tags", "scope", "todo", "getter", "must_getter"}
@@ -796,6 +802,130 @@ func formatLines() {
 		} else {
 			_ = enc.Encode(map[string]any{"out": o})
 		}
+	}
+}
+
+// ---------------------------------------------------------------------------------------------- api
+
+// apiLines: JSON strings (Go sources) on stdin -> one JSON object per line describing the exported surface:
+// package, build constraints, imports, types, functions and methods with signatures in which every package qualifier
+// is replaced by its import path (alias numbering differs between stub and normal output).
+func apiLines() {
+	sc := bufio.NewScanner(os.Stdin)
+	sc.Buffer(make([]byte, 1<<20), 1<<28)
+	w := bufio.NewWriter(os.Stdout)
+	defer w.Flush()
+	enc := json.NewEncoder(w)
+	enc.SetEscapeHTML(false)
+	for sc.Scan() {
+		var src string
+		if err := json.Unmarshal(sc.Bytes(), &src); err != nil {
+			_ = enc.Encode(map[string]any{"err": err.Error()})
+			continue
+		}
+		fset := token2.NewFileSet()
+		f, err := parser.ParseFile(fset, "x.go", src, parser.ParseComments)
+		if err != nil {
+			_ = enc.Encode(map[string]any{"err": err.Error()})
+			continue
+		}
+		imps := map[string]string{}
+		var implist []any
+		for _, im := range f.Imports {
+			p, _ := strconv.Unquote(im.Path.Value)
+			n := ""
+			if im.Name != nil {
+				n = im.Name.Name
+			} else {
+				n = p[strings.LastIndex(p, "/")+1:]
+			}
+			imps[n] = p
+			implist = append(implist, map[string]any{"name": n, "path": p})
+		}
+		render := func(e ast.Expr) string {
+			var b bytes.Buffer
+			_ = printer.Fprint(&b, fset, e)
+			s := b.String()
+			// replace qualifiers by import paths
+			return regexp.MustCompile(`\b([A-Za-z_][A-Za-z0-9_]*)\.([A-Za-z_])`).ReplaceAllStringFunc(s, func(m string) string {
+				i := strings.Index(m, ".")
+				if p, ok := imps[m[:i]]; ok {
+					return "<" + p + ">." + m[i+1:]
+				}
+				return m
+			})
+		}
+		fields := func(fl *ast.FieldList, names bool) []string {
+			var out []string
+			if fl == nil {
+				return out
+			}
+			for _, fd := range fl.List {
+				ty := render(fd.Type)
+				if len(fd.Names) == 0 {
+					out = append(out, ty)
+				}
+				for _, n := range fd.Names {
+					if names {
+						out = append(out, n.Name+" "+ty)
+					} else {
+						out = append(out, ty)
+					}
+				}
+			}
+			return out
+		}
+		var constraints []string
+		for _, cg := range f.Comments {
+			for _, c := range cg.List {
+				if cg.Pos() < f.Package && (strings.HasPrefix(c.Text, "//go:build") || strings.HasPrefix(c.Text, "// +build")) {
+					constraints = append(constraints, c.Text)
+				}
+			}
+		}
+		var types, funcs, methods []any
+		usedQual := map[string]bool{}
+		ast.Inspect(f, func(n ast.Node) bool {
+			if se, ok := n.(*ast.SelectorExpr); ok {
+				if id, ok := se.X.(*ast.Ident); ok {
+					if _, isImp := imps[id.Name]; isImp {
+						usedQual[imps[id.Name]+"."+se.Sel.Name] = true
+					}
+				}
+			}
+			return true
+		})
+		for _, d := range f.Decls {
+			switch x := d.(type) {
+			case *ast.GenDecl:
+				for _, sp := range x.Specs {
+					if ts, ok := sp.(*ast.TypeSpec); ok {
+						types = append(types, map[string]any{"name": ts.Name.Name, "type": render(ts.Type)})
+					}
+				}
+			case *ast.FuncDecl:
+				body := ""
+				if x.Body != nil {
+					var b bytes.Buffer
+					_ = printer.Fprint(&b, fset, x.Body)
+					body = b.String()
+				}
+				onlyPanic := x.Body != nil && len(x.Body.List) == 1 && strings.HasPrefix(strings.TrimSpace(strings.Trim(strings.TrimSpace(body), "{}")), "panic(")
+				ent := map[string]any{"name": x.Name.Name, "params": fields(x.Type.Params, false), "results": fields(x.Type.Results, false), "only_panic": onlyPanic}
+				if x.Recv != nil {
+					ent["recv"] = fields(x.Recv, false)
+					methods = append(methods, ent)
+				} else {
+					funcs = append(funcs, ent)
+				}
+			}
+		}
+		var uq []string
+		for k := range usedQual {
+			uq = append(uq, k)
+		}
+		sort.Strings(uq)
+		_ = enc.Encode(map[string]any{"package": f.Name.Name, "constraints": constraints, "imports": implist, "types": types, "funcs": funcs, "methods": methods, "qualified_uses": uq})
 	}
 }
 
